@@ -22,8 +22,8 @@ Definition ex1 : pairspec :=
   (((POth "common"), "Ratio"), DBasic BFloat64);
   (((POth "common"), "Flag"), DBasic BBool);
   (((POth "common"), "Tiny"), DBasic BInt8);
-  (((POth "common"), "Money"), DStruct [{| sf_name := "Units"; sf_emb := false; sf_ty := (TBasic BInt64); sf_tag := "" |}; {| sf_name := "Cur"; sf_emb := false; sf_ty := (TBasic BString); sf_tag := "" |}])] in let FN : list mfunc := [{| mf_name := "StrToI64"; mf_param := (TBasic BString); mf_result := (TBasic BInt64) |}; {| mf_name := "I64ToStr"; mf_param := (TBasic BInt64); mf_result := (TBasic BString) |}] in {| ps_env := E; ps_fuel := 18; ps_jobs := [{| j_env := E; j_fuel := 18; j_src := "Inner"; j_dst := "Inner"; j_funcs := []; j_ic := false; j_src_acc := []; j_dst_acc := []; j_src_ctor := []; j_dst_ctor := []; j_src_shootnew := false; j_manual_to := None; j_manual_from := None |};
-  {| j_env := E; j_fuel := 18; j_src := "T"; j_dst := "T"; j_funcs := FN; j_ic := false; j_src_acc := []; j_dst_acc := []; j_src_ctor := []; j_dst_ctor := []; j_src_shootnew := false; j_manual_to := None; j_manual_from := None |}]; ps_funcs := [("StrToI64", (FLen BInt64 (3)%Z)); ("I64ToStr", (FParity "#p"))]; ps_manual_to := []; ps_manual_from := []; ps_way := WBoth |}).
+  (((POth "common"), "Money"), DStruct [{| sf_name := "Units"; sf_emb := false; sf_ty := (TBasic BInt64); sf_tag := "" |}; {| sf_name := "Cur"; sf_emb := false; sf_ty := (TBasic BString); sf_tag := "" |}])] in let FN : list mfunc := [{| mf_name := "StrToI64"; mf_param := (TBasic BString); mf_result := (TBasic BInt64) |}; {| mf_name := "I64ToStr"; mf_param := (TBasic BInt64); mf_result := (TBasic BString) |}] in {| ps_env := E; ps_fuel := 18; ps_jobs := [{| j_env := E; j_fuel := 18; j_src := "Inner"; j_dst := "Inner"; j_funcs := []; j_ic := false; j_src_acc := []; j_dst_acc := []; j_src_ctor := []; j_dst_ctor := []; j_src_shootnew := false; j_manual_to := None; j_manual_from := None; j_mapper_hop := None |};
+  {| j_env := E; j_fuel := 18; j_src := "T"; j_dst := "T"; j_funcs := FN; j_ic := false; j_src_acc := []; j_dst_acc := []; j_src_ctor := []; j_dst_ctor := []; j_src_shootnew := false; j_manual_to := None; j_manual_from := None; j_mapper_hop := None |}]; ps_funcs := [("StrToI64", (FLen BInt64 (3)%Z)); ("I64ToStr", (FParity "#p"))]; ps_manual_to := []; ps_manual_from := []; ps_way := WBoth |}).
 
 Definition ex2 : pairspec :=
 (let E : env := [((PSrc, "Emb"), DStruct [{| sf_name := "X"; sf_emb := false; sf_ty := (TBasic BInt); sf_tag := "" |}]);
@@ -35,7 +35,7 @@ Definition ex2 : pairspec :=
   (((POth "common"), "Ratio"), DBasic BFloat64);
   (((POth "common"), "Flag"), DBasic BBool);
   (((POth "common"), "Tiny"), DBasic BInt8);
-  (((POth "common"), "Money"), DStruct [{| sf_name := "Units"; sf_emb := false; sf_ty := (TBasic BInt64); sf_tag := "" |}; {| sf_name := "Cur"; sf_emb := false; sf_ty := (TBasic BString); sf_tag := "" |}])] in let FN : list mfunc := [] in {| ps_env := E; ps_fuel := 12; ps_jobs := [{| j_env := E; j_fuel := 12; j_src := "T"; j_dst := "T"; j_funcs := []; j_ic := false; j_src_acc := []; j_dst_acc := []; j_src_ctor := []; j_dst_ctor := []; j_src_shootnew := false; j_manual_to := None; j_manual_from := None |}]; ps_funcs := []; ps_manual_to := []; ps_manual_from := []; ps_way := WBoth |}).
+  (((POth "common"), "Money"), DStruct [{| sf_name := "Units"; sf_emb := false; sf_ty := (TBasic BInt64); sf_tag := "" |}; {| sf_name := "Cur"; sf_emb := false; sf_ty := (TBasic BString); sf_tag := "" |}])] in let FN : list mfunc := [] in {| ps_env := E; ps_fuel := 12; ps_jobs := [{| j_env := E; j_fuel := 12; j_src := "T"; j_dst := "T"; j_funcs := []; j_ic := false; j_src_acc := []; j_dst_acc := []; j_src_ctor := []; j_dst_ctor := []; j_src_shootnew := false; j_manual_to := None; j_manual_from := None; j_mapper_hop := None |}]; ps_funcs := []; ps_manual_to := []; ps_manual_from := []; ps_way := WBoth |}).
 
 Definition ex3 : pairspec :=
 (let E : env := [((PSrc, "T"), DStruct [{| sf_name := "A"; sf_emb := false; sf_ty := (TBasic BInt); sf_tag := "X" |}; {| sf_name := "X"; sf_emb := false; sf_ty := (TBasic BInt); sf_tag := "" |}]);
@@ -45,7 +45,7 @@ Definition ex3 : pairspec :=
   (((POth "common"), "Ratio"), DBasic BFloat64);
   (((POth "common"), "Flag"), DBasic BBool);
   (((POth "common"), "Tiny"), DBasic BInt8);
-  (((POth "common"), "Money"), DStruct [{| sf_name := "Units"; sf_emb := false; sf_ty := (TBasic BInt64); sf_tag := "" |}; {| sf_name := "Cur"; sf_emb := false; sf_ty := (TBasic BString); sf_tag := "" |}])] in let FN : list mfunc := [] in {| ps_env := E; ps_fuel := 10; ps_jobs := [{| j_env := E; j_fuel := 10; j_src := "T"; j_dst := "T"; j_funcs := []; j_ic := false; j_src_acc := []; j_dst_acc := []; j_src_ctor := []; j_dst_ctor := []; j_src_shootnew := false; j_manual_to := None; j_manual_from := None |}]; ps_funcs := []; ps_manual_to := []; ps_manual_from := []; ps_way := WBoth |}).
+  (((POth "common"), "Money"), DStruct [{| sf_name := "Units"; sf_emb := false; sf_ty := (TBasic BInt64); sf_tag := "" |}; {| sf_name := "Cur"; sf_emb := false; sf_ty := (TBasic BString); sf_tag := "" |}])] in let FN : list mfunc := [] in {| ps_env := E; ps_fuel := 10; ps_jobs := [{| j_env := E; j_fuel := 10; j_src := "T"; j_dst := "T"; j_funcs := []; j_ic := false; j_src_acc := []; j_dst_acc := []; j_src_ctor := []; j_dst_ctor := []; j_src_shootnew := false; j_manual_to := None; j_manual_from := None; j_mapper_hop := None |}]; ps_funcs := []; ps_manual_to := []; ps_manual_from := []; ps_way := WBoth |}).
 
 Definition ex4 : pairspec :=
 (let E : env := [((PSrc, "Base"), DStruct [{| sf_name := "Secret"; sf_emb := false; sf_ty := (TBasic BInt); sf_tag := "-" |}]);
@@ -56,7 +56,7 @@ Definition ex4 : pairspec :=
   (((POth "common"), "Ratio"), DBasic BFloat64);
   (((POth "common"), "Flag"), DBasic BBool);
   (((POth "common"), "Tiny"), DBasic BInt8);
-  (((POth "common"), "Money"), DStruct [{| sf_name := "Units"; sf_emb := false; sf_ty := (TBasic BInt64); sf_tag := "" |}; {| sf_name := "Cur"; sf_emb := false; sf_ty := (TBasic BString); sf_tag := "" |}])] in let FN : list mfunc := [] in {| ps_env := E; ps_fuel := 11; ps_jobs := [{| j_env := E; j_fuel := 11; j_src := "T"; j_dst := "T"; j_funcs := []; j_ic := false; j_src_acc := []; j_dst_acc := []; j_src_ctor := []; j_dst_ctor := []; j_src_shootnew := false; j_manual_to := None; j_manual_from := None |}]; ps_funcs := []; ps_manual_to := []; ps_manual_from := []; ps_way := WBoth |}).
+  (((POth "common"), "Money"), DStruct [{| sf_name := "Units"; sf_emb := false; sf_ty := (TBasic BInt64); sf_tag := "" |}; {| sf_name := "Cur"; sf_emb := false; sf_ty := (TBasic BString); sf_tag := "" |}])] in let FN : list mfunc := [] in {| ps_env := E; ps_fuel := 11; ps_jobs := [{| j_env := E; j_fuel := 11; j_src := "T"; j_dst := "T"; j_funcs := []; j_ic := false; j_src_acc := []; j_dst_acc := []; j_src_ctor := []; j_dst_ctor := []; j_src_shootnew := false; j_manual_to := None; j_manual_from := None; j_mapper_hop := None |}]; ps_funcs := []; ps_manual_to := []; ps_manual_from := []; ps_way := WBoth |}).
 
 
 Definition ex1_v : val := (VStruct [("Mapper", (VStruct [])); ("EmbP", (VPtr (VStruct [("EP", (VInt (-5)%Z)); ("Deep", (VPtr (VStruct [("DP", (VStr "deep"))])))]))); ("ID", (VInt (7)%Z)); ("UserID", (VInt (77)%Z)); ("N8", (VInt (-3)%Z)); ("S2", (VStr "tagged")); ("Skip", (VInt (99)%Z)); ("Amount", (VStr "12345")); ("In", (VStruct [("A", (VInt (1)%Z)); ("B", (VStr "in"))])); ("InP", (VPtr (VStruct [("A", (VInt (2)%Z)); ("B", (VStr "inp"))]))); ("Ins", (VList [(VStruct [("A", (VInt (3)%Z)); ("B", (VStr "a"))]); (VStruct [("A", (VInt (4)%Z)); ("B", (VStr "b"))])])); ("InPs", (VList [(VPtr (VStruct [("A", (VInt (5)%Z)); ("B", (VStr "c"))])); VNil])); ("Lv", (VInt (4)%Z))]).
@@ -75,7 +75,7 @@ Definition ex5 : pairspec :=
   (((POth "common"), "Ratio"), DBasic BFloat64);
   (((POth "common"), "Flag"), DBasic BBool);
   (((POth "common"), "Tiny"), DBasic BInt8);
-  (((POth "common"), "Money"), DStruct [{| sf_name := "Units"; sf_emb := false; sf_ty := (TBasic BInt64); sf_tag := "" |}; {| sf_name := "Cur"; sf_emb := false; sf_ty := (TBasic BString); sf_tag := "" |}])] in let FN : list mfunc := [{| mf_name := "F"; mf_param := (TBasic BUint16); mf_result := (TBasic BString) |}] in {| ps_env := E; ps_fuel := 11; ps_jobs := [{| j_env := E; j_fuel := 11; j_src := "T"; j_dst := "T"; j_funcs := FN; j_ic := false; j_src_acc := [{| ac_name := "Count"; ac_ty := (TBasic BInt); ac_set := false; ac_path := ["count"] |}; {| ac_name := "Note"; ac_ty := (TBasic BString); ac_set := false; ac_path := ["note"] |}; {| ac_name := "SetCount"; ac_ty := (TBasic BInt); ac_set := true; ac_path := ["count"] |}]; j_dst_acc := []; j_src_ctor := [{| cp_field := "note"; cp_path := ["note"]; cp_ty := (TBasic BString) |}; {| cp_field := "count"; cp_path := ["count"]; cp_ty := (TBasic BInt) |}]; j_dst_ctor := []; j_src_shootnew := true; j_manual_to := None; j_manual_from := None |}]; ps_funcs := [("F", (FParity "#v"))]; ps_manual_to := []; ps_manual_from := []; ps_way := WBoth |}).
+  (((POth "common"), "Money"), DStruct [{| sf_name := "Units"; sf_emb := false; sf_ty := (TBasic BInt64); sf_tag := "" |}; {| sf_name := "Cur"; sf_emb := false; sf_ty := (TBasic BString); sf_tag := "" |}])] in let FN : list mfunc := [{| mf_name := "F"; mf_param := (TBasic BUint16); mf_result := (TBasic BString) |}] in {| ps_env := E; ps_fuel := 11; ps_jobs := [{| j_env := E; j_fuel := 11; j_src := "T"; j_dst := "T"; j_funcs := FN; j_ic := false; j_src_acc := [{| ac_name := "Count"; ac_ty := (TBasic BInt); ac_set := false; ac_path := ["count"] |}; {| ac_name := "Note"; ac_ty := (TBasic BString); ac_set := false; ac_path := ["note"] |}; {| ac_name := "SetCount"; ac_ty := (TBasic BInt); ac_set := true; ac_path := ["count"] |}]; j_dst_acc := []; j_src_ctor := [{| cp_field := "note"; cp_path := ["note"]; cp_ty := (TBasic BString) |}; {| cp_field := "count"; cp_path := ["count"]; cp_ty := (TBasic BInt) |}]; j_dst_ctor := []; j_src_shootnew := true; j_manual_to := None; j_manual_from := None; j_mapper_hop := None |}]; ps_funcs := [("F", (FParity "#v"))]; ps_manual_to := []; ps_manual_from := []; ps_way := WBoth |}).
 Definition ex5_d : val := (VStruct [("Note", (VInt (3)%Z)); ("Count", (VInt (9)%Z))]).
 Definition ex5_dirty : val := (VStruct [("Mapper", (VStruct [])); ("note", (VStr "old")); ("count", (VInt (1)%Z))]).
 
@@ -92,8 +92,8 @@ Definition ex6 : pairspec :=
   (((POth "common"), "Ratio"), DBasic BFloat64);
   (((POth "common"), "Flag"), DBasic BBool);
   (((POth "common"), "Tiny"), DBasic BInt8);
-  (((POth "common"), "Money"), DStruct [{| sf_name := "Units"; sf_emb := false; sf_ty := (TBasic BInt64); sf_tag := "" |}; {| sf_name := "Cur"; sf_emb := false; sf_ty := (TBasic BString); sf_tag := "" |}])] in let FN : list mfunc := [{| mf_name := "F0"; mf_param := (TBasic BString); mf_result := (TBasic BInt16) |}; {| mf_name := "F1"; mf_param := (TBasic BInt16); mf_result := (TBasic BString) |}] in {| ps_env := E; ps_fuel := 13; ps_jobs := [{| j_env := E; j_fuel := 13; j_src := "Inner"; j_dst := "Inner"; j_funcs := []; j_ic := false; j_src_acc := []; j_dst_acc := []; j_src_ctor := []; j_dst_ctor := []; j_src_shootnew := false; j_manual_to := None; j_manual_from := None |};
-  {| j_env := E; j_fuel := 13; j_src := "T"; j_dst := "T"; j_funcs := FN; j_ic := false; j_src_acc := []; j_dst_acc := [{| ac_name := "Amount"; ac_ty := (TBasic BInt16); ac_set := false; ac_path := ["amount"] |}; {| ac_name := "Count"; ac_ty := (TBasic BInt64); ac_set := false; ac_path := ["count"] |}; {| ac_name := "Id"; ac_ty := (TBasic BInt); ac_set := false; ac_path := ["id"] |}; {| ac_name := "In"; ac_ty := (TNamed PDst "Inner"); ac_set := false; ac_path := ["in"] |}; {| ac_name := "Name"; ac_ty := (TBasic BString); ac_set := false; ac_path := ["name"] |}; {| ac_name := "SetAmount"; ac_ty := (TBasic BInt16); ac_set := true; ac_path := ["amount"] |}; {| ac_name := "SetId"; ac_ty := (TBasic BInt); ac_set := true; ac_path := ["id"] |}; {| ac_name := "SetIn"; ac_ty := (TNamed PDst "Inner"); ac_set := true; ac_path := ["in"] |}; {| ac_name := "SetName"; ac_ty := (TBasic BString); ac_set := true; ac_path := ["name"] |}]; j_src_ctor := []; j_dst_ctor := [{| cp_field := "id"; cp_path := ["id"]; cp_ty := (TBasic BInt) |}; {| cp_field := "name"; cp_path := ["name"]; cp_ty := (TBasic BString) |}; {| cp_field := "count"; cp_path := ["count"]; cp_ty := (TBasic BInt64) |}; {| cp_field := "in"; cp_path := ["in"]; cp_ty := (TNamed PDst "Inner") |}; {| cp_field := "amount"; cp_path := ["amount"]; cp_ty := (TBasic BInt16) |}]; j_src_shootnew := false; j_manual_to := None; j_manual_from := None |}]; ps_funcs := [("F0", (FLen BInt16 (2)%Z)); ("F1", (FParity "#a"))]; ps_manual_to := []; ps_manual_from := []; ps_way := WBoth |}).
+  (((POth "common"), "Money"), DStruct [{| sf_name := "Units"; sf_emb := false; sf_ty := (TBasic BInt64); sf_tag := "" |}; {| sf_name := "Cur"; sf_emb := false; sf_ty := (TBasic BString); sf_tag := "" |}])] in let FN : list mfunc := [{| mf_name := "F0"; mf_param := (TBasic BString); mf_result := (TBasic BInt16) |}; {| mf_name := "F1"; mf_param := (TBasic BInt16); mf_result := (TBasic BString) |}] in {| ps_env := E; ps_fuel := 13; ps_jobs := [{| j_env := E; j_fuel := 13; j_src := "Inner"; j_dst := "Inner"; j_funcs := []; j_ic := false; j_src_acc := []; j_dst_acc := []; j_src_ctor := []; j_dst_ctor := []; j_src_shootnew := false; j_manual_to := None; j_manual_from := None; j_mapper_hop := None |};
+  {| j_env := E; j_fuel := 13; j_src := "T"; j_dst := "T"; j_funcs := FN; j_ic := false; j_src_acc := []; j_dst_acc := [{| ac_name := "Amount"; ac_ty := (TBasic BInt16); ac_set := false; ac_path := ["amount"] |}; {| ac_name := "Count"; ac_ty := (TBasic BInt64); ac_set := false; ac_path := ["count"] |}; {| ac_name := "Id"; ac_ty := (TBasic BInt); ac_set := false; ac_path := ["id"] |}; {| ac_name := "In"; ac_ty := (TNamed PDst "Inner"); ac_set := false; ac_path := ["in"] |}; {| ac_name := "Name"; ac_ty := (TBasic BString); ac_set := false; ac_path := ["name"] |}; {| ac_name := "SetAmount"; ac_ty := (TBasic BInt16); ac_set := true; ac_path := ["amount"] |}; {| ac_name := "SetId"; ac_ty := (TBasic BInt); ac_set := true; ac_path := ["id"] |}; {| ac_name := "SetIn"; ac_ty := (TNamed PDst "Inner"); ac_set := true; ac_path := ["in"] |}; {| ac_name := "SetName"; ac_ty := (TBasic BString); ac_set := true; ac_path := ["name"] |}]; j_src_ctor := []; j_dst_ctor := [{| cp_field := "id"; cp_path := ["id"]; cp_ty := (TBasic BInt) |}; {| cp_field := "name"; cp_path := ["name"]; cp_ty := (TBasic BString) |}; {| cp_field := "count"; cp_path := ["count"]; cp_ty := (TBasic BInt64) |}; {| cp_field := "in"; cp_path := ["in"]; cp_ty := (TNamed PDst "Inner") |}; {| cp_field := "amount"; cp_path := ["amount"]; cp_ty := (TBasic BInt16) |}]; j_src_shootnew := false; j_manual_to := None; j_manual_from := None; j_mapper_hop := None |}]; ps_funcs := [("F0", (FLen BInt16 (2)%Z)); ("F1", (FParity "#a"))]; ps_manual_to := []; ps_manual_from := []; ps_way := WBoth |}).
 
 Definition ex6p : pairspec :=
 (let E : env := [((PSrc, "Inner"), DStruct [{| sf_name := "A"; sf_emb := false; sf_ty := (TBasic BInt); sf_tag := "" |}]);
@@ -106,8 +106,8 @@ Definition ex6p : pairspec :=
   (((POth "common"), "Ratio"), DBasic BFloat64);
   (((POth "common"), "Flag"), DBasic BBool);
   (((POth "common"), "Tiny"), DBasic BInt8);
-  (((POth "common"), "Money"), DStruct [{| sf_name := "Units"; sf_emb := false; sf_ty := (TBasic BInt64); sf_tag := "" |}; {| sf_name := "Cur"; sf_emb := false; sf_ty := (TBasic BString); sf_tag := "" |}])] in let FN : list mfunc := [{| mf_name := "F0"; mf_param := (TBasic BString); mf_result := (TBasic BInt16) |}; {| mf_name := "F1"; mf_param := (TBasic BInt16); mf_result := (TBasic BString) |}] in {| ps_env := E; ps_fuel := 13; ps_jobs := [{| j_env := E; j_fuel := 13; j_src := "Inner"; j_dst := "Inner"; j_funcs := []; j_ic := false; j_src_acc := []; j_dst_acc := []; j_src_ctor := []; j_dst_ctor := []; j_src_shootnew := false; j_manual_to := None; j_manual_from := None |};
-  {| j_env := E; j_fuel := 13; j_src := "T"; j_dst := "T"; j_funcs := FN; j_ic := false; j_src_acc := []; j_dst_acc := []; j_src_ctor := []; j_dst_ctor := []; j_src_shootnew := false; j_manual_to := None; j_manual_from := None |}]; ps_funcs := [("F0", (FLen BInt16 (2)%Z)); ("F1", (FParity "#a"))]; ps_manual_to := []; ps_manual_from := []; ps_way := WBoth |}).
+  (((POth "common"), "Money"), DStruct [{| sf_name := "Units"; sf_emb := false; sf_ty := (TBasic BInt64); sf_tag := "" |}; {| sf_name := "Cur"; sf_emb := false; sf_ty := (TBasic BString); sf_tag := "" |}])] in let FN : list mfunc := [{| mf_name := "F0"; mf_param := (TBasic BString); mf_result := (TBasic BInt16) |}; {| mf_name := "F1"; mf_param := (TBasic BInt16); mf_result := (TBasic BString) |}] in {| ps_env := E; ps_fuel := 13; ps_jobs := [{| j_env := E; j_fuel := 13; j_src := "Inner"; j_dst := "Inner"; j_funcs := []; j_ic := false; j_src_acc := []; j_dst_acc := []; j_src_ctor := []; j_dst_ctor := []; j_src_shootnew := false; j_manual_to := None; j_manual_from := None; j_mapper_hop := None |};
+  {| j_env := E; j_fuel := 13; j_src := "T"; j_dst := "T"; j_funcs := FN; j_ic := false; j_src_acc := []; j_dst_acc := []; j_src_ctor := []; j_dst_ctor := []; j_src_shootnew := false; j_manual_to := None; j_manual_from := None; j_mapper_hop := None |}]; ps_funcs := [("F0", (FLen BInt16 (2)%Z)); ("F1", (FParity "#a"))]; ps_manual_to := []; ps_manual_from := []; ps_way := WBoth |}).
 
 Definition ex7 : pairspec :=
 (let E : env := [((PSrc, "Inner"), DStruct [{| sf_name := "A"; sf_emb := false; sf_ty := (TBasic BInt); sf_tag := "" |}]);
@@ -120,8 +120,8 @@ Definition ex7 : pairspec :=
   (((POth "common"), "Ratio"), DBasic BFloat64);
   (((POth "common"), "Flag"), DBasic BBool);
   (((POth "common"), "Tiny"), DBasic BInt8);
-  (((POth "common"), "Money"), DStruct [{| sf_name := "Units"; sf_emb := false; sf_ty := (TBasic BInt64); sf_tag := "" |}; {| sf_name := "Cur"; sf_emb := false; sf_ty := (TBasic BString); sf_tag := "" |}])] in let FN : list mfunc := [{| mf_name := "F"; mf_param := (TBasic BInt); mf_result := (TBasic BInt64) |}] in {| ps_env := E; ps_fuel := 13; ps_jobs := [{| j_env := E; j_fuel := 13; j_src := "Inner"; j_dst := "Inner"; j_funcs := []; j_ic := false; j_src_acc := []; j_dst_acc := []; j_src_ctor := []; j_dst_ctor := []; j_src_shootnew := false; j_manual_to := None; j_manual_from := None |};
-  {| j_env := E; j_fuel := 13; j_src := "T"; j_dst := "T"; j_funcs := FN; j_ic := false; j_src_acc := []; j_dst_acc := [{| ac_name := "A"; ac_ty := (TBasic BInt64); ac_set := false; ac_path := ["a"] |}; {| ac_name := "In"; ac_ty := (TNamed PDst "Inner"); ac_set := false; ac_path := ["in"] |}]; j_src_ctor := []; j_dst_ctor := [{| cp_field := "a"; cp_path := ["a"]; cp_ty := (TBasic BInt64) |}; {| cp_field := "in"; cp_path := ["in"]; cp_ty := (TNamed PDst "Inner") |}]; j_src_shootnew := false; j_manual_to := None; j_manual_from := None |}]; ps_funcs := [("F", (FAdd BInt64 (5)%Z))]; ps_manual_to := []; ps_manual_from := []; ps_way := WBoth |}).
+  (((POth "common"), "Money"), DStruct [{| sf_name := "Units"; sf_emb := false; sf_ty := (TBasic BInt64); sf_tag := "" |}; {| sf_name := "Cur"; sf_emb := false; sf_ty := (TBasic BString); sf_tag := "" |}])] in let FN : list mfunc := [{| mf_name := "F"; mf_param := (TBasic BInt); mf_result := (TBasic BInt64) |}] in {| ps_env := E; ps_fuel := 13; ps_jobs := [{| j_env := E; j_fuel := 13; j_src := "Inner"; j_dst := "Inner"; j_funcs := []; j_ic := false; j_src_acc := []; j_dst_acc := []; j_src_ctor := []; j_dst_ctor := []; j_src_shootnew := false; j_manual_to := None; j_manual_from := None; j_mapper_hop := None |};
+  {| j_env := E; j_fuel := 13; j_src := "T"; j_dst := "T"; j_funcs := FN; j_ic := false; j_src_acc := []; j_dst_acc := [{| ac_name := "A"; ac_ty := (TBasic BInt64); ac_set := false; ac_path := ["a"] |}; {| ac_name := "In"; ac_ty := (TNamed PDst "Inner"); ac_set := false; ac_path := ["in"] |}]; j_src_ctor := []; j_dst_ctor := [{| cp_field := "a"; cp_path := ["a"]; cp_ty := (TBasic BInt64) |}; {| cp_field := "in"; cp_path := ["in"]; cp_ty := (TNamed PDst "Inner") |}]; j_src_shootnew := false; j_manual_to := None; j_manual_from := None; j_mapper_hop := None |}]; ps_funcs := [("F", (FAdd BInt64 (5)%Z))]; ps_manual_to := []; ps_manual_from := []; ps_way := WBoth |}).
 
 Definition ex6_v : val := (VStruct [("Mapper", (VStruct [])); ("ID", (VInt (7)%Z)); ("Name", (VStr "n")); ("Count", (VInt (-3)%Z)); ("In", (VStruct [("A", (VInt (4)%Z))])); ("Amount", (VStr "abc"))]).
 Definition ex7_v : val := (VStruct [("Mapper", (VStruct [])); ("A", (VInt (1)%Z)); ("In", (VStruct [("A", (VInt (4)%Z))]))]).
@@ -136,5 +136,5 @@ Definition ex8 : pairspec :=
   (((POth "common"), "Ratio"), DBasic BFloat64);
   (((POth "common"), "Flag"), DBasic BBool);
   (((POth "common"), "Tiny"), DBasic BInt8);
-  (((POth "common"), "Money"), DStruct [{| sf_name := "Units"; sf_emb := false; sf_ty := (TBasic BInt64); sf_tag := "" |}; {| sf_name := "Cur"; sf_emb := false; sf_ty := (TBasic BString); sf_tag := "" |}])] in let FN : list mfunc := [{| mf_name := "F0"; mf_param := (TBasic BString); mf_result := (TBasic BInt8) |}; {| mf_name := "F1"; mf_param := (TBasic BString); mf_result := (TBasic BInt8) |}] in {| ps_env := E; ps_fuel := 11; ps_jobs := [{| j_env := E; j_fuel := 11; j_src := "T"; j_dst := "T"; j_funcs := FN; j_ic := false; j_src_acc := []; j_dst_acc := [{| ac_name := "Ratio"; ac_ty := (TBasic BInt8); ac_set := false; ac_path := ["ratio"] |}; {| ac_name := "SetRatio"; ac_ty := (TBasic BInt8); ac_set := true; ac_path := ["ratio"] |}]; j_src_ctor := []; j_dst_ctor := [{| cp_field := "ratio"; cp_path := ["ratio"]; cp_ty := (TBasic BInt8) |}]; j_src_shootnew := false; j_manual_to := None; j_manual_from := None |}]; ps_funcs := [("F0", (FLen BInt8 (1)%Z)); ("F1", (FLen BInt8 (7)%Z))]; ps_manual_to := []; ps_manual_from := []; ps_way := WBoth |}).
+  (((POth "common"), "Money"), DStruct [{| sf_name := "Units"; sf_emb := false; sf_ty := (TBasic BInt64); sf_tag := "" |}; {| sf_name := "Cur"; sf_emb := false; sf_ty := (TBasic BString); sf_tag := "" |}])] in let FN : list mfunc := [{| mf_name := "F0"; mf_param := (TBasic BString); mf_result := (TBasic BInt8) |}; {| mf_name := "F1"; mf_param := (TBasic BString); mf_result := (TBasic BInt8) |}] in {| ps_env := E; ps_fuel := 11; ps_jobs := [{| j_env := E; j_fuel := 11; j_src := "T"; j_dst := "T"; j_funcs := FN; j_ic := false; j_src_acc := []; j_dst_acc := [{| ac_name := "Ratio"; ac_ty := (TBasic BInt8); ac_set := false; ac_path := ["ratio"] |}; {| ac_name := "SetRatio"; ac_ty := (TBasic BInt8); ac_set := true; ac_path := ["ratio"] |}]; j_src_ctor := []; j_dst_ctor := [{| cp_field := "ratio"; cp_path := ["ratio"]; cp_ty := (TBasic BInt8) |}]; j_src_shootnew := false; j_manual_to := None; j_manual_from := None; j_mapper_hop := None |}]; ps_funcs := [("F0", (FLen BInt8 (1)%Z)); ("F1", (FLen BInt8 (7)%Z))]; ps_manual_to := []; ps_manual_from := []; ps_way := WBoth |}).
 Definition ex8_v : val := (VStruct [("Mapper", (VStruct [])); ("Ratio", (VStr "ab"))]).
